@@ -1,0 +1,147 @@
+//go:build verif
+
+// Contracts for package ja4, checked by /verif/govc (comment-only file).
+package ja4
+
+//@ -- counting / filtering of 16-bit lists -----------------------------------------------------------
+//@ pure func cnt16(xs seq[uint16], v int, n int) int = ite(n <= 0, 0, cnt16(xs, v, n-1) + ite(xs[n-1] == v, 1, 0))
+//@ pure func countNG(xs seq[uint16], n int) int = ite(n <= 0, 0, countNG(xs, n-1) + ite(grease(xs[n-1]), 0, 1))
+//@ pure func filterNG(xs seq[uint16], n int) seq[uint16] = ite(n <= 0, seq[uint16]{}, ite(grease(xs[n-1]), filterNG(xs, n-1), filterNG(xs, n-1) ++ seq[uint16]{xs[n-1]}))
+//@ pure func sorted16(xs seq[uint16]) bool = forall i int, k int :: 0 <= i && i <= k && k < len(xs) ==> xs[i] <= xs[k]
+//@ -- lower-case %04x of each element joined by sep
+//@ pure func hexJoin(xs seq[uint16], sep string, n int) string = ite(n <= 0, "", ite(n == 1, "", hexJoin(xs, sep, n-1) ++ sep) ++ fmtx("04", xs[n-1]))
+//@ pure func trunc12(in string) string = fmtxs("", sha256sum(in))[:12]
+//@ pure func byteStr(b byte) string = ite(b < 128, unit(b), utf8enc(b))
+//@ pure func verStr(x int) string = ite(x == 769, "10", ite(x == 770, "11", ite(x == 771, "12", ite(x == 772, "13", "00"))))
+
+//@ func isGREASEUint16 :: v -> r
+//@   props C02,C10
+//@   assigns nothing
+//@   ensures [C02:grease-iff] r <==> grease(v)
+
+//@ func tlsVersion.String :: x -> s
+//@   props C02
+//@   assigns nothing
+//@   ensures [C02:version-code] s == verStr(x)
+
+//@ func numberOfCipherSuites.String :: x -> s
+//@   props C02
+//@   assigns nothing
+//@   ensures [C02:two-digits-capped] s == fmtd("02", min(x, 99))
+
+//@ func numberOfExtensions.String :: x -> s
+//@   props C02
+//@   assigns nothing
+//@   ensures [C02:two-digits-capped] s == fmtd("02", min(x, 99))
+
+//@ func joinUint16 :: slice, sep -> s
+//@   props C02,C10
+//@   assigns nothing
+//@   ensures [C02:hex-join] s == hexJoin(slice, sep, len(slice))
+//@   loop 1 invariant -1 <= rangeindex && rangeindex < len(slice) || (rangeindex == -1 && len(slice) == 0)
+//@   loop 1 invariant [C02:hex-join-prefix] buffer.view == hexJoin(slice, sep, rangeindex+1)
+
+//@ func cipherSuites.String :: x -> s
+//@   props C02
+//@   assigns nothing
+//@   ensures s == hexJoin(x, ",", len(x))
+//@ func extensions.String :: x -> s
+//@   props C02
+//@   assigns nothing
+//@   ensures s == hexJoin(x, ",", len(x))
+//@ func signatureAlgorithms.String :: x -> s
+//@   props C02
+//@   assigns nothing
+//@   ensures s == hexJoin(x, ",", len(x))
+
+//@ func truncatedSha256 :: in -> s
+//@   props C02,C10
+//@   ensures [C02:truncated-sha256] s == trunc12(in) && len(s) == 12
+
+//@ func sortUint16 :: sl
+//@   trusted
+//@   assigns post(sl)
+//@   ensures sorted16(post(sl)) && len(post(sl)) == len(sl) && (forall v uint16 :: cnt16(post(sl), v, len(sl)) == cnt16(sl, v, len(sl)))
+
+//@ -- JA4_a / JA4_b / JA4_c as functions of the fingerprint's fields (from the FoxIO description)
+//@ pure func ja4a(j *JA4Fingerprint) string = byteStr(j.Protocol) ++ verStr(j.TLSVersion) ++ byteStr(j.SNI) ++ fmtd("02", min(j.NumberOfCipherSuites, 99)) ++ fmtd("02", min(j.NumberOfExtensions, 99)) ++ j.FirstALPN
+//@ pure func ja4cInput(j *JA4Fingerprint) string = ite(len(j.SignatureAlgorithms) == 0, hexJoin(j.Extensions, ",", len(j.Extensions)), hexJoin(j.Extensions, ",", len(j.Extensions)) ++ "_" ++ hexJoin(j.SignatureAlgorithms, ",", len(j.SignatureAlgorithms)))
+
+//@ func (*JA4Fingerprint).String :: j -> s
+//@   props C02,C10
+//@   requires j != nil
+//@   ensures [C02:a_b_c] s == ja4a(j) ++ "_" ++ trunc12(hexJoin(j.CipherSuites, ",", len(j.CipherSuites))) ++ "_" ++ trunc12(ja4cInput(j))
+
+//@ -- what the pieces are, as functions of the parsed hello -----------------------------------------------
+//@ pure func maxNG(vs seq[uint16], n int) int = ite(n <= 0, 0, ite(!grease(vs[n-1]) && vs[n-1] > maxNG(vs, n-1), vs[n-1], maxNG(vs, n-1)))
+//@ pure func maxVer(es seq[utls.TLSExtension], n int) int = ite(n <= 0, 0, max(maxVer(es, n-1), ite(isptr(utls.SupportedVersionsExtension, es[n-1]), maxNG(unboxptr(utls.SupportedVersionsExtension, es[n-1]).Versions, len(unboxptr(utls.SupportedVersionsExtension, es[n-1]).Versions)), 0)))
+//@ pure func hasSNI(es seq[utls.TLSExtension], n int) bool = n > 0 && (isptr(utls.SNIExtension, es[n-1]) || hasSNI(es, n-1))
+//@ pure func countExt(es seq[utls.TLSExtension], n int) int = ite(n <= 0, 0, countExt(es, n-1) + ite(isptr(utls.UtlsGREASEExtension, es[n-1]), 0, 1))
+//@ pure func alpnOf(es seq[utls.TLSExtension], n int) string = ite(n <= 0, "", ite(isptr(utls.ALPNExtension, es[n-1]) && len(unboxptr(utls.ALPNExtension, es[n-1]).AlpnProtocols) > 0, unboxptr(utls.ALPNExtension, es[n-1]).AlpnProtocols[0], alpnOf(es, n-1)))
+//@ pure func sigAlgs(es seq[utls.TLSExtension], n int) seq[uint16] = ite(n <= 0, seq[uint16]{}, ite(isptr(utls.SignatureAlgorithmsExtension, es[n-1]), sigAlgs(es, n-1) ++ filterNG(unboxptr(utls.SignatureAlgorithmsExtension, es[n-1]).SupportedSignatureAlgorithms, len(unboxptr(utls.SignatureAlgorithmsExtension, es[n-1]).SupportedSignatureAlgorithms)), sigAlgs(es, n-1)))
+//@ pure func extsWellFormed(chs *utls.ClientHelloSpec) bool = forall i int :: 0 <= i && i < len(chs.Extensions) ==> (isptr(utls.SupportedVersionsExtension, chs.Extensions[i]) ==> unboxptr(utls.SupportedVersionsExtension, chs.Extensions[i]) != nil) && (isptr(utls.ALPNExtension, chs.Extensions[i]) ==> unboxptr(utls.ALPNExtension, chs.Extensions[i]) != nil) && (isptr(utls.SignatureAlgorithmsExtension, chs.Extensions[i]) ==> unboxptr(utls.SignatureAlgorithmsExtension, chs.Extensions[i]) != nil) && (isptr(utls.UtlsPaddingExtension, chs.Extensions[i]) ==> unboxptr(utls.UtlsPaddingExtension, chs.Extensions[i]) != nil)
+
+//@ func (*JA4Fingerprint).unmarshalTLSVersion :: j, chs
+//@   props C02,C10
+//@   requires j != nil && chs != nil && extsWellFormed(chs)
+//@   assigns j.TLSVersion
+//@   ensures [C02:version-max-or-supported-versions] j.TLSVersion == ite(chs.TLSVersMax != 0, chs.TLSVersMax, maxVer(chs.Extensions, len(chs.Extensions)))
+//@   loop 1 invariant -1 <= rangeindex && rangeindex < len(chs.Extensions) || (rangeindex == -1 && len(chs.Extensions) == 0)
+//@   loop 1 invariant vers == maxVer(chs.Extensions, rangeindex+1)
+//@   loop 2 invariant 0 <= rangeindex#1 && rangeindex#1 < len(chs.Extensions) && sve != nil && isptr(utls.SupportedVersionsExtension, chs.Extensions[rangeindex#1]) && sve == unboxptr(utls.SupportedVersionsExtension, chs.Extensions[rangeindex#1])
+//@   loop 2 invariant -1 <= rangeindex && rangeindex < len(sve.Versions) || (rangeindex == -1 && len(sve.Versions) == 0)
+//@   loop 2 invariant vers == max(maxVer(chs.Extensions, rangeindex#1), maxNG(sve.Versions, rangeindex+1))
+
+//@ func (*JA4Fingerprint).unmarshalSNI :: j, chs
+//@   props C02,C10
+//@   requires j != nil && chs != nil
+//@   assigns j.SNI
+//@   ensures [C02:sni-flag] j.SNI == ite(hasSNI(chs.Extensions, len(chs.Extensions)), 'd', 'i')
+//@   loop 1 invariant -1 <= rangeindex && rangeindex < len(chs.Extensions) || (rangeindex == -1 && len(chs.Extensions) == 0)
+//@   loop 1 invariant !hasSNI(chs.Extensions, rangeindex+1)
+
+//@ func (*JA4Fingerprint).unmarshalNumberOfCipherSuites :: j, chs
+//@   props C02,C10
+//@   requires j != nil && chs != nil
+//@   assigns j.NumberOfCipherSuites
+//@   ensures [C02:cipher-count] j.NumberOfCipherSuites == countNG(chs.CipherSuites, len(chs.CipherSuites))
+//@   loop 1 invariant -1 <= rangeindex && rangeindex < len(chs.CipherSuites) || (rangeindex == -1 && len(chs.CipherSuites) == 0)
+//@   loop 1 invariant n == countNG(chs.CipherSuites, rangeindex+1) && 0 <= n && n <= rangeindex+1
+
+//@ func (*JA4Fingerprint).unmarshalNumberOfExtensions :: j, chs
+//@   props C02,C10
+//@   requires j != nil && chs != nil
+//@   assigns j.NumberOfExtensions
+//@   ensures [C02:extension-count] j.NumberOfExtensions == countExt(chs.Extensions, len(chs.Extensions))
+//@   loop 1 invariant -1 <= rangeindex && rangeindex < len(chs.Extensions) || (rangeindex == -1 && len(chs.Extensions) == 0)
+//@   loop 1 invariant n == countExt(chs.Extensions, rangeindex+1) && 0 <= n && n <= rangeindex+1
+
+//@ pure func alpnCode(a string) string = ite(len(a) == 0, "00", ite(ite(len(a) > 2, byteStr(a[0]) ++ byteStr(a[len(a)-1]), a)[0] > 127, "99", ite(len(a) > 2, byteStr(a[0]) ++ byteStr(a[len(a)-1]), a)))
+
+//@ func (*JA4Fingerprint).unmarshalFirstALPN :: j, chs
+//@   props C02,C10
+//@   requires j != nil && chs != nil && extsWellFormed(chs)
+//@   assigns j.FirstALPN
+//@   ensures [C02:alpn-code] j.FirstALPN == alpnCode(alpnOf(chs.Extensions, len(chs.Extensions)))
+//@   loop 1 invariant -1 <= rangeindex && rangeindex < len(chs.Extensions) || (rangeindex == -1 && len(chs.Extensions) == 0)
+//@   loop 1 invariant alpn == alpnOf(chs.Extensions, rangeindex+1)
+
+//@ func (*JA4Fingerprint).unmarshalCipherSuites :: j, chs, keepOriginalOrder
+//@   props C02,C10
+//@   requires j != nil && chs != nil
+//@   assigns j.CipherSuites
+//@   ensures [C02:ciphers-sorted] !keepOriginalOrder ==> sorted16(j.CipherSuites)
+//@   ensures [C02:ciphers-multiset] len(j.CipherSuites) == len(filterNG(chs.CipherSuites, len(chs.CipherSuites))) && (forall v uint16 :: cnt16(j.CipherSuites, v, len(j.CipherSuites)) == cnt16(filterNG(chs.CipherSuites, len(chs.CipherSuites)), v, len(j.CipherSuites)))
+//@   loop 1 invariant -1 <= rangeindex && rangeindex < len(chs.CipherSuites) || (rangeindex == -1 && len(chs.CipherSuites) == 0)
+//@   loop 1 invariant cipherSuites == filterNG(chs.CipherSuites, rangeindex+1)
+
+//@ func (*JA4Fingerprint).unmarshalSignatureAlgorithm :: j, chs
+//@   props C02,C10
+//@   requires j != nil && chs != nil && extsWellFormed(chs)
+//@   assigns j.SignatureAlgorithms
+//@   ensures [C02:sigalgs-wire-order-no-grease] j.SignatureAlgorithms == sigAlgs(chs.Extensions, len(chs.Extensions))
+//@   loop 1 invariant -1 <= rangeindex && rangeindex < len(chs.Extensions) || (rangeindex == -1 && len(chs.Extensions) == 0)
+//@   loop 1 invariant algo == sigAlgs(chs.Extensions, rangeindex+1)
+//@   loop 2 invariant 0 <= rangeindex#1 && rangeindex#1 < len(chs.Extensions) && sae != nil && isptr(utls.SignatureAlgorithmsExtension, chs.Extensions[rangeindex#1]) && sae == unboxptr(utls.SignatureAlgorithmsExtension, chs.Extensions[rangeindex#1])
+//@   loop 2 invariant -1 <= rangeindex && rangeindex < len(sae.SupportedSignatureAlgorithms) || (rangeindex == -1 && len(sae.SupportedSignatureAlgorithms) == 0)
+//@   loop 2 invariant algo == sigAlgs(chs.Extensions, rangeindex#1) ++ filterNG(sae.SupportedSignatureAlgorithms, rangeindex+1)
